@@ -11,8 +11,8 @@ Contract (from the statement, evaluated at run time on the real public entry poi
   whether the call returns, raises or exits.  deep_snapshot = value, type and identity of every nested container
   (Namespace / dict / list / tuple / set), leaves by (type, repr).
   Second clause: instantiate_classes(cfg) twice  ->  for every class_path spec in cfg (also specs that come from lazy_instance
-  / dict defaults of arguments and of signatures) the object found in the first result at the place of the spec is not the object found there in the second result, and
-  each was constructed during the call that returned it.
+  / dict defaults of arguments and of signatures) the object found in the first result at the place of the spec is not the
+  object found there in the second result, and each was constructed during the call that returned it.
 
 Oracle: the snapshot taken before the call (independent of jsonargparse); for the second clause a construction log kept by the
 test classes themselves and a structural copy of the configuration taken before the first call (the places of the class_path nodes).
@@ -21,10 +21,14 @@ Enumeration (fixed order): parser style x container shape x element kind x value
 A fresh parser (and fresh test classes, fresh values) is built for every single operation so that a mutation is blamed on the
 call that made it.
 
-Violation keys:  c08:mut:<op>:<what>:<container chain>:<change>
-   what   = the argument name (cfg_obj, cfg, args, namespace, env, cfg_from, cfg_to, cfg_base) or defaults / cwd / environ / argparse
-   chain  = kinds of the containers from the argument down to the one that was changed, e.g. dict.list.list, ns.tuple.list
-   change = <old leaf type>-><new leaf type> | replaced:<old>-><new> (a nested container object was swapped) | len | keys
+Violation keys:  c08:mut:<op>:<what>:<via>.<container>:<change>          (cwd / environ / argparse: c08:mut:<op>:<what>[:<name>])
+   what      = the argument name (cfg_obj, cfg, args, namespace, env, cfg_from, cfg_to, cfg_base) or defaults / cwd / environ / argparse
+   via       = direct | below-tuple | below-set : whether a tuple / set lies between the argument and the changed container
+   container = kind of the container whose content changed (ns, dict, list)
+   change    = value (an element has another value/type) | replaced (a nested container object was swapped for a different one) |
+               replaced-equal (swapped for an equal copy: identity only) | len | keys | key-order | elements | state
+   The full container chain (e.g. dict.list.list, ns.tuple.list) and the concrete change (str->int, Color->str, dict->Namespace,
+   Namespace->Sub ...) are in the `what` text; the key stays coarse so that one defect gives a bounded number of keys.
 and  c08:inst2:<placement>:<source><input#>:<path of the spec in the configuration>:<same-object|not-fresh|not-built>  for the second clause.
 """
 import argparse
@@ -36,7 +40,7 @@ import os
 import re
 import sys
 import tempfile
-from typing import Any, Dict, List, Optional, Set, Tuple, Union
+from typing import Dict, List, Optional, Set, Tuple, Union
 
 from bounded.common import Harness, outcome
 
@@ -426,7 +430,7 @@ class Spec:
         self.key = {"flat": "v", "group": "g.v", "subclass": "k.init_args.v", "dataclass": "g.v", "subcommand": "sub.v", "inner": "g.v", "nargs": "v"}[style]
 
     def describe(self, tname):
-        conv = to_json(self.mk_conv())
+        conv = str(to_json(self.mk_conv()))[:160]
         head = "ArgumentParser(exit_on_error=False, env_prefix='APP'); --cfg ActionConfigFile; "
         return head + {
             "flat": f"--v: {tname}; --d: {tname} = <conv value {conv} (tuples/sets as such)>" + ("; --c: same type, default = canonical value" if self.mk_canon else ""),
@@ -495,7 +499,7 @@ class Spec:
 
 
 # --------------------------------------------------------------------------------------------------------------------
-def raw_ops(h, spec, mkval, case, tmp, thorough):
+def raw_ops(h, spec, mkval, case, tmp):
     """Operations applied directly to caller-built (unparsed) values."""
     P = spec.build
 
@@ -929,7 +933,7 @@ def grid_unit(h, style, shape, tmp):
         for kind in ("canon", "conv", "bad"):
             if kind not in el:
                 continue
-            raw_ops(h, spec, maker(kind), {**base_case, "value_kind": kind, "value": to_json(maker(kind)())}, tmp, h.thorough)
+            raw_ops(h, spec, maker(kind), {**base_case, "value_kind": kind, "value": to_json(maker(kind)())}, tmp)
             h.nontrivial((style, sname, ename, kind))
         sources = [("parse_object(conv)", lambda p, mk=maker("conv"): p.parse_object(spec.wrap(mk()))),
                    ("parse_args(conv)", lambda p, mk=maker("conv"): p.parse_args(spec.argv(mk()))),
